@@ -232,8 +232,18 @@ func (lv *LeafVariants) GetHighestPrecedence(onlyNewOrUpdated bool, includeDefau
 		}
 		return nil
 	}
-	// otherwise if the secondhighest is not marked for deletion return it
-	if secondHighest != nil && !checkExistsAndDeleteFlagSet(secondHighest) && checkNotOwner(secondHighest, RunningIntentName) {
+	// otherwise the highest entry that is not marked for deletion takes over. This is not necessarily
+	// the second highest, several intents can be deleted (or moved away) within the same transaction.
+	secondHighest = nil
+	for _, e := range lv.les {
+		if e.GetDeleteFlag() {
+			continue
+		}
+		if secondHighest == nil || secondHighest.Priority() > e.Priority() {
+			secondHighest = e
+		}
+	}
+	if secondHighest != nil && checkNotOwner(secondHighest, RunningIntentName) {
 		return secondHighest
 	}
 
